@@ -41,6 +41,8 @@ BOUNDS = {
     'thorough': 'signed formats with 1+i+f <= 6 (21 formats) plus the 8-bit format (1,3,4) in every same-format '
                 'configuration (65536 pairs each); all operand pairs; Mult 21^3 format triples',
 }
+for k in ('quick', 'thorough'):
+    BOUNDS[k] += '; also the comparator with a subset of its outputs connected and formats of 65 and 128 bits (boundary values)'
 OPS = {'FixedPointAdd': 'add', 'FixedPointSub': 'sub', 'FixedPointMult': 'mult'}
 
 
